@@ -16,7 +16,6 @@ import (
 	"strconv"
 	"strings"
 	"time"
-
 )
 
 type modelTable struct {
